@@ -234,6 +234,27 @@ def check_costs(res, rng, reps):
     res.case(('rotor_cost-identity',))
     if cfn.rotor_cost(one) != 0:
         res.violate('rotor_cost(1) != 0', site, cfn.rotor_cost(one), 0, dict(site, op='rotor_cost'))
+    # the explicit extractor on rounds in the special positions where K = 2 + gamma (X1X2 + X2X1) has a negative scalar part and no
+    # 4-vector part (disjoint spheres of the same orientation, nested spheres of opposite orientation), next to the ordinary ones
+    def sphere_(c, r):
+        c = np.asarray(c, float)
+        pts = [t.up(c[0] * t.e1 + c[1] * t.e2 + c[2] * t.e3 + r * d) for d in (t.e1, t.e2, t.e3, -t.e1)]
+        return (pts[0] ^ pts[1] ^ pts[2] ^ pts[3]).normal()
+    c1 = [float(rng.integers(-2, 3)) for _ in range(3)]
+    specials = [('overlapping', sphere_(c1, 1.0), sphere_([c1[0] + 1.0, c1[1] + 0.25, c1[2]], 1.25)),
+                ('nested-same', sphere_(c1, 1.0), sphere_([c1[0] + 0.125, c1[1] + 0.25, c1[2]], 3.0)),
+                ('disjoint-same', sphere_(c1, 1.0), sphere_([c1[0] + 5.0, c1[1] + 0.25, c1[2]], 1.25)),
+                ('nested-opposite', sphere_(c1, 1.0), -sphere_([c1[0] + 0.125, c1[1] + 0.25, c1[2]], 3.0)),
+                ('disjoint-far', sphere_(c1, 0.5), sphere_([c1[0] - 8.0, c1[1] + 2.0, c1[2] - 1.0], 2.0))]
+    for pos_, S1, S2 in specials:
+        res.case(('rotor_explicit-special', pos_, tuple(c1)), nontrivial=True)
+        res.count('rotor_explicit_' + pos_)
+        Re = t.layout.MultiVector(t.val_rotor_between_objects_explicit(S1.value, S2.value))
+        Rr = t.rotor_between_objects(S1, S2)
+        img = Re * S1 * ~Re
+        if not ((near(Re, Rr, 1.0, 1e-7) or near(Re, -Rr, 1.0, 1e-7)) and (near(img, S2, mag(S2), 1e-7) or near(img, -S2, mag(S2), 1e-7))):
+            res.violate('explicit rotor extractor disagrees with rotor_between_objects (up to sign) on spheres in a special position', dict(site, position=pos_, centre=c1),
+                        Re.value.tolist(), Rr.value.tolist(), dict(site, op='rotor_explicit', position=pos_))
     for _ in range(reps):
         R = (t.generate_translation_rotor(pt(rng, t)) * t.generate_rotation_rotor(float(rng.uniform(0.1, 3.0)), nz_vec(rng, t), t.e1 + 0.5 * t.e3 + nz_vec(rng, t)))
         if not np.all(np.isfinite(R.value)):
